@@ -51,15 +51,23 @@ fn chains(ctx: &mut Ctx, maxd: usize) {
                     prev = name;
                 }
                 stmts.push(let_("o", var(&prev)));
-                for call in &cs {
-                    if ctx.take().is_none() { continue }
-                    let kept = if matches!(call, E::IdxSet(..)) || matches!(call, E::MCall(_, n, _) if n == "set") { call.clone() } else { print("=~\\n", vec![call.clone()]) };
-                    let mut p = stmts.clone();
-                    p.push(kept);
-                    p.push(print("|~ ~\\n", vec![var("t"), var("o")]));
-                    semantic_case(ctx, "U-OBJ/chain", &p);
-                    ctx.count("programs", 1);
-                    ctx.count(&format!("terminal:{}", tname), 1);
+                for (ci, call) in cs.iter().enumerate() {
+                    // contexts: value printed; (well-formed calls only) value discarded, and as the
+                    // initialiser of a 2-element array - an ordinary call wherever it stands
+                    for context in 0..(if ci < 7 { 3 } else { 1 }) {
+                        if ctx.take().is_none() { continue }
+                        let st = match context {
+                            0 => if matches!(call, E::IdxSet(..)) || matches!(call, E::MCall(_, n, _) if n == "set") { call.clone() } else { print("=~\\n", vec![call.clone()]) },
+                            1 => block(vec![call.clone(), print("discarded\\n", vec![])]),
+                            _ => print("=~\\n", vec![array(int(2), call.clone())]),
+                        };
+                        let mut p = stmts.clone();
+                        p.push(st);
+                        p.push(print("|~ ~\\n", vec![var("t"), var("o")]));
+                        semantic_case(ctx, "U-OBJ/chain", &p);
+                        ctx.count("programs", 1);
+                        ctx.count(&format!("terminal:{}", tname), 1);
+                    }
                 }
             }
         }
